@@ -65,11 +65,23 @@ static bool isQuotientImage(const ref::TA& A, const ref::TA& R) {
   return false;
 }
 
-static void c05Body(Env& env, const std::string& stage, int n, const dom::Alphabet& sig, int k) {
+static void c05Body(Env& env, const std::string& stage, int n, const dom::Alphabet& sig, int k, bool allOrders = false) {
   auto D = std::make_shared<dom::TADomain>(n, sig, k);
-  dom::forEachTA(env, stage, D, [D](const ref::TA& A0, size_t idx, Ctx& c) {
+  dom::forEachTA(env, stage, D, [D, allOrders](const ref::TA& A0, size_t idx, Ctx& c) {
     c.evals(); uint64_t w = A0.rules.size();
     bool empty = ref::emptyLang(A0); if (!empty && A0.rules.size() >= 2) c.nontrivial();
+    if (allOrders) {   // every insertion order of the rules (hash-container iteration order depends on it), dense numbering
+      std::vector<ref::Rule> rs(A0.rules.begin(), A0.rules.end()); std::vector<int> perm(rs.size()); for (size_t i = 0; i < perm.size(); i++) perm[i] = (int)i;
+      do { ExplicitTreeAut a; for (int i : perm) a.AddTransition(rs[i].ch, rs[i].sym, rs[i].par); for (auto f : A0.finals) a.SetStateFinal(f); c.count("insertion_orders");
+        try { ExplicitTreeAut r = a.Reduce(); ref::TA R = dom::readBack(r); std::string ord = "insertion order:"; for (int i : perm) ord += " " + std::to_string(i);
+          std::string d = det(*D, A0, ord + " result: " + D->str(R));
+          if (!ref::equalLang(A0, R)) c.viol("Reduce", "language_changed", {"insertion_order"}, d, w);
+          if (R.states().size() > A0.states().size()) c.viol("Reduce", "more_states", {"insertion_order"}, d, w);
+          if (dom::countRules(r) > A0.rules.size()) c.viol("Reduce", "more_rules", {"insertion_order"}, d, w);
+          if (!isQuotientImage(A0, R)) c.viol("Reduce", "state_not_an_image", {"insertion_order"}, d, w);
+        } catch (std::exception& e) { c.viol("Reduce", "exception", {"insertion_order"}, det(*D, A0, e.what()), w); }
+      } while (std::next_permutation(perm.begin(), perm.end()));
+    }
     c.count(empty ? "lang_empty" : "lang_nonempty");
     if (dom::hasUseless(A0)) c.count("class_useless_states");
     size_t sizes[3][2];
@@ -126,6 +138,10 @@ static Register b2("c05.n3s3pk4", "C05", "all of TA(3,{a:0,f:1,g:2},<=4 rules) x
 static Register b3("c05.n2s3k6", "C05", "all of TA(2,{a:0,b:0,f:1,g:2},<=6 rules) x 3 numberings", [](Env& e) { c05Body(e, "c05.n2s3k6", 2, dom::Sigma3(), 6); });
 static Register b4("c05.n3s3pk5", "C05", "all of TA(3,{a:0,f:1,g:2},<=5 rules) x 3 numberings", [](Env& e) { c05Body(e, "c05.n3s3pk5", 3, dom::Sigma3p(), 5); });
 static Register b5("c05.n2s3k7", "C05", "all of TA(2,{a:0,b:0,f:1,g:2},<=7 rules) x 3 numberings", [](Env& e) { c05Body(e, "c05.n2s3k7", 2, dom::Sigma3(), 7); });
+static Register b6("c05.n4afk4", "C05", "all of TA(4,{a:0,f:1},<=4 rules) x 3 numberings x ALL rule insertion orders", [](Env& e) { c05Body(e, "c05.n4afk4", 4, dom::SigmaAF(), 4, true); });
+static Register b7("c05.n4afk5", "C05", "all of TA(4,{a:0,f:1},<=5 rules) x 3 numberings x ALL rule insertion orders", [](Env& e) { c05Body(e, "c05.n4afk5", 4, dom::SigmaAF(), 5, true); });
+static Register b8("c05.n4s3pk3", "C05", "all of TA(4,{a:0,f:1,g:2},<=3 rules) x 3 numberings x all insertion orders", [](Env& e) { c05Body(e, "c05.n4s3pk3", 4, dom::Sigma3p(), 3, true); });
+static Register b9("c05.n4afk5.std", "C05", "all of TA(4,{a:0,f:1},<=5 rules) x 3 numberings (2 insertion orders)", [](Env& e) { c05Body(e, "c05.n4afk5.std", 4, dom::SigmaAF(), 5, false); });
 static Register d1("c15.n3s3pk3", "C15", "all of TA(3,{a:0,f:1,g:2},<=3 rules)", [](Env& e) { c15Body(e, "c15.n3s3pk3", 3, dom::Sigma3p(), 3); });
 static Register d2("c15.n3s3pk4", "C15", "all of TA(3,{a:0,f:1,g:2},<=4 rules)", [](Env& e) { c15Body(e, "c15.n3s3pk4", 3, dom::Sigma3p(), 4); });
 static Register d3("c15.n2s3k6", "C15", "all of TA(2,{a:0,b:0,f:1,g:2},<=6 rules)", [](Env& e) { c15Body(e, "c15.n2s3k6", 2, dom::Sigma3(), 6); });
